@@ -163,7 +163,7 @@ def search(ctx):
         inp = {"kp": kp.tolist(), "q": q.tolist(), "q_r": q_r.tolist()}
         if not np.all(np.isfinite(om)):
             report("attitude:finite", "attitude controller output not finite", inp, 1.0, 0); continue
-        same = kind in (0, 1)
+        same = it < n and kind in (0, 1)
         if same and not np.max(np.abs(om)) <= 1e-7:
             report("attitude:zero", "command not zero although measured and reference attitude are the same rotation", inp, np.max(np.abs(om)), 1e-7)
         om1 = np.atleast_1d(ac(np.ones(3), q, q_r))
